@@ -31,6 +31,9 @@ Definition val_ok (f : tfield) (v : tval) : Prop :=
   | FB64Rest _, VBytes b => all_bytes b = true /\ b <> []
   | FTxtRest, VStrs l => l <> [] /\ Forall (fun s => all_bytes s = true /\ zlen s <= 255) l
   | FAddr v6, VBytes b => all_bytes b = true /\ length b = (if v6 then 16 else 4)%nat
+  | FHexTok, VBytes b => all_bytes b = true /\ zlen b <= 255
+  | FAlg, VInt z => 0 <= z <= 255
+  | FTag, VBytes b => b <> [] /\ zlen b <= 255 /\ forallb is_alnum b = true
   | _, _ => False
   end.
 
@@ -123,6 +126,39 @@ Proof.
   exists st3, te. split; [reflexivity|]. split; assumption.
 Qed.
 
+(* decimal algorithm numbers are not mnemonics: finite sweep *)
+Definition alg_ok (z : Z) : bool := match alg_from_text (dec z) with Ok v => v =? z | _ => false end.
+Lemma alg_ok_all : forallb alg_ok (map Z.of_nat (seq 0 256)) = true.
+Proof. vm_compute. reflexivity. Qed.
+Lemma alg_dec z : 0 <= z <= 255 -> alg_from_text (dec z) = Ok z.
+Proof.
+  intros Hz. pose proof alg_ok_all as H. rewrite forallb_forall in H. specialize (H z).
+  assert (Hin : In z (map Z.of_nat (seq 0 256))).
+  { rewrite <- (Z2Nat.id z) by lia. apply in_map. apply in_seq. lia. }
+  specialize (H Hin). unfold alg_ok in H. destruct (alg_from_text (dec z)) as [v| |]; try discriminate.
+  apply Z.eqb_eq in H. subst. reflexivity.
+Qed.
+
+(* alphanumeric octets print as themselves and form a safe ASCII word *)
+Lemma alnum_facts b : forallb is_alnum b = true ->
+  escapify b = b /\ forallb safe b = true /\ all_ascii b = true.
+Proof.
+  induction b as [|c b IH]; intros H; [repeat split; reflexivity|].
+  cbn [forallb] in H. apply andb_true_iff in H as [Hc H]. destruct (IH H) as (I1 & I2 & I3).
+  unfold is_alnum in Hc.
+  assert (Hr : (48 <= c <= 57) \/ (65 <= c <= 90) \/ (97 <= c <= 122)) by lia.
+  split; [|split].
+  - unfold escapify in *. cbn [flat_map]. rewrite I1. unfold esc_octet, q_escaped.
+    replace (c =? 34) with false by lia. replace (c =? 92) with false by lia. cbn [orb].
+    replace ((c >=? 32) && (c <? 127)) with true by lia. reflexivity.
+  - cbn [forallb]. rewrite I2. rewrite andb_true_r. unfold safe, is_delim.
+    replace (c =? 32) with false by lia. replace (c =? 9) with false by lia.
+    replace (c =? 10) with false by lia. replace (c =? 59) with false by lia.
+    replace (c =? 40) with false by lia. replace (c =? 41) with false by lia.
+    replace (c =? 34) with false by lia. replace (c =? 92) with false by lia. reflexivity.
+  - unfold all_ascii in *. cbn [forallb]. rewrite I3. replace ((0 <=? c) && (c <? 128)) with true by lia. reflexivity.
+Qed.
+
 (* ---------- one field ---------- *)
 Lemma field_ok sty c f v ftext v' R q bl :
   style_ok sty -> val_ok f v -> print_field sty f v = Ok ftext -> expect sty c f v = Ok v' ->
@@ -131,12 +167,12 @@ Lemma field_ok sty c f v ftext v' R q bl :
   exists t1 s1, get0 (stq q (bl ++ ftext ++ R)) = Ok (t1, s1) /\ ungot s1 = None /\ tok_plain t1 /\
     (length (inp s1) <= length (inp (stq q (bl ++ ftext ++ R))))%nat /\
     forall stX, get0 stX = Ok (t1, s1) -> (length (inp s1) <= length (inp stX))%nat ->
-      exists st_end, parse_field c f stX = Ok (v', st_end) /\
+      exists raw st_end, parse_field c f stX = Ok (raw, st_end) /\ ctor_field f raw = Ok v' /\
         (is_rest f = false -> exists q', st_end = stq q' R) /\
         (is_rest f = true -> exists te, ungot st_end = Some te /\ is_eol_or_eof te = true).
 Proof.
   intros (Hhs & Hbs & HO) Hv Hp He Hbl HR1 HR2.
-  destruct f as [maxv| |tokmax ctormax ne| | |sc| |v6]; destruct v as [z|b|n|l]; cbn [val_ok] in Hv; try contradiction;
+  destruct f as [maxv| |tokmax ctormax ne| | |sc| |v6| | |]; destruct v as [z|b|n|l]; cbn [val_ok] in Hv; try contradiction;
     cbn [print_field] in Hp; cbn [expect] in He; cbn [is_rest] in HR1, HR2.
   - (* FDec *)
     inversion Hp; subst ftext. inversion He; subst v'. specialize (HR1 eq_refl).
@@ -146,7 +182,7 @@ Proof.
     split; [reflexivity|]. split.
     { unfold tok_plain, is_identifier. cbn [ttype tvalue]. rewrite safe_word_not_hash by exact Hs. repeat split; reflexivity. }
     split; [apply stq_len_word|].
-    intros stX HX _. exists (stq false R). split; [|split; [intros _; exists false; reflexivity|discriminate]].
+    intros stX HX _. exists (VInt z), (stq false R). split; [|split; [reflexivity|split; [intros _; exists false; reflexivity|discriminate]]].
     cbn [parse_field]. unfold get_uint, get_unescaped. rewrite HX. cbn [bind fst snd]. unfold unescape. cbn [tesc].
     rewrite has_bs_safe by exact Hs. cbn [negb bind fst snd]. rewrite as_uint_dec by lia. reflexivity.
   - (* FTtl *)
@@ -157,7 +193,7 @@ Proof.
     split; [reflexivity|]. split.
     { unfold tok_plain, is_identifier. cbn [ttype tvalue]. rewrite safe_word_not_hash by exact Hs. repeat split; reflexivity. }
     split; [apply stq_len_word|].
-    intros stX HX _. exists (stq false R). split; [|split; [intros _; exists false; reflexivity|discriminate]].
+    intros stX HX _. exists (VInt z), (stq false R). split; [|split; [reflexivity|split; [intros _; exists false; reflexivity|discriminate]]].
     cbn [parse_field]. unfold get_ttl, get_unescaped. rewrite HX. cbn [bind fst snd]. unfold unescape. cbn [tesc].
     rewrite has_bs_safe by exact Hs. cbn [negb bind fst snd]. unfold is_identifier. cbn [ttype tvalue].
     change (tIDENT =? tIDENT) with true. cbn [negb]. rewrite ttl_from_text_dec by exact Hv. reflexivity.
@@ -169,15 +205,16 @@ Proof.
       by (cbn [app]; rewrite <- app_assoc; reflexivity).
     split; [exact E|]. split; [reflexivity|]. split; [repeat split; reflexivity|]. split.
     { unfold stq. cbn [inp pend app]. rewrite !app_length. cbn [length]. rewrite app_length. cbn [length]. lia. }
-    intros stX HX _. exists (stq true R). split; [|split; [intros _; exists true; reflexivity|discriminate]].
-    cbn [parse_field]. unfold get_string_as_bytes. rewrite HX. cbn [bind fst snd].
-    unfold unescape_to_bytes. cbn [tvalue ttype]. rewrite unescape_to_bytes_escapify by exact Hb. cbn [bind].
-    unfold is_identifier, is_quoted. cbn [ttype tvalue]. change (tQUOTED =? tQUOTED) with true.
-    rewrite orb_true_r. cbn [negb].
-    replace (negb (tokmax =? 0) && (zlen b >? tokmax)) with false by (destruct Htm; lia).
-    cbn [bind fst snd]. replace (negb (ctormax =? 0) && (zlen b >? ctormax)) with false by (destruct Hcm; lia).
-    replace (ne && is_nil b) with false; [reflexivity|].
-    destruct ne; [|reflexivity]. destruct b; [exfalso; apply Hne; reflexivity|reflexivity].
+    intros stX HX _. exists (VBytes b), (stq true R).
+    split; [|split; [|split; [intros _; exists true; reflexivity|discriminate]]].
+    + cbn [parse_field]. unfold get_string_as_bytes. rewrite HX. cbn [bind fst snd].
+      unfold unescape_to_bytes. cbn [tvalue ttype]. rewrite unescape_to_bytes_escapify by exact Hb. cbn [bind].
+      unfold is_identifier, is_quoted. cbn [ttype tvalue]. change (tQUOTED =? tQUOTED) with true.
+      rewrite orb_true_r. cbn [negb].
+      replace (negb (tokmax =? 0) && (zlen b >? tokmax)) with false by (destruct Htm; lia). reflexivity.
+    + cbn [ctor_field]. replace (negb (ctormax =? 0) && (zlen b >? ctormax)) with false by (destruct Hcm; lia).
+      replace (ne && is_nil b) with false; [reflexivity|].
+      destruct ne; [|reflexivity]. destruct b; [exfalso; apply Hne; reflexivity|reflexivity].
   - (* FName *)
     destruct Hv as (V & HB). specialize (HR1 eq_refl).
     unfold name_to_styled_text in Hp.
@@ -191,7 +228,7 @@ Proof.
     split; [apply stq_len_word|].
     intros stX HX _.
     destruct (name_path sty c n) as [n'| |] eqn:E2; cbn [bind] in He; try discriminate. inversion He; subst v'.
-    exists (stq false R). split; [|split; [intros _; exists false; reflexivity|discriminate]].
+    exists (VName n'), (stq false R). split; [|split; [reflexivity|split; [intros _; exists false; reflexivity|discriminate]]].
     cbn [parse_field]. unfold get_name. rewrite HX. cbn [bind fst snd].
     rewrite (as_name_printed sty c n (NameM.to_text n1)) by (auto; unfold name_to_styled_text; rewrite E1; reflexivity).
     rewrite E2. reflexivity.
@@ -204,7 +241,7 @@ Proof.
     destruct (rest_bytes_ok unhexlify (hexlify b) b _ R q bl Hch Hne' Ha (unhexlify_hexlify b Hb) Hbl HR2)
       as (t1 & s1 & G1 & G2 & G3 & G4 & G5).
     exists t1, s1. split; [exact G1|]. split; [exact G2|]. split; [exact G3|]. split; [exact G4|]. intros stX HX HL. destruct (G5 stX HX HL) as (se & te & P1 & P2 & P3).
-    exists se. split; [exact P1|]. split; [discriminate|]. intros _. exists te. split; assumption.
+    exists (VBytes b), se. split; [exact P1|]. split; [reflexivity|]. split; [discriminate|]. intros _. exists te. split; assumption.
   - (* FB64Rest *)
     destruct Hv as (Hb & Hne). inversion Hp; subst ftext. inversion He; subst v'. specialize (HR2 eq_refl).
     destruct (b64encode_safe b Hb) as [Hs Ha].
@@ -214,7 +251,7 @@ Proof.
     destruct (rest_bytes_ok b64decode (b64encode b) b _ R q bl Hch Hne' Ha (b64decode_b64encode b Hb) Hbl HR2)
       as (t1 & s1 & G1 & G2 & G3 & G4 & G5).
     exists t1, s1. split; [exact G1|]. split; [exact G2|]. split; [exact G3|]. split; [exact G4|]. intros stX HX HL. destruct (G5 stX HX HL) as (se & te & P1 & P2 & P3).
-    exists se. split; [exact P1|]. split; [discriminate|]. intros _. exists te. split; assumption.
+    exists (VBytes b), se. split; [exact P1|]. split; [reflexivity|]. split; [discriminate|]. intros _. exists te. split; assumption.
   - (* FTxtRest *)
     destruct Hv as (Hne & Hss). inversion Hp; subst ftext. inversion He; subst v'. specialize (HR2 eq_refl).
     destruct l as [|s ss]; [congruence|]. inversion Hss as [|? ? [Hb Hl] Hss']; subst.
@@ -235,7 +272,7 @@ Proof.
     destruct (get_remaining_tail_b _ HQ R (S (length (inp stX))) [mkTok tQUOTED (txt_body u8 s) he None] HR2)
       as (toks & te & st & HF & Hte & Hu & E2).
     { pose proof (txt_tail_b_length (map (txt_body u8) ss) R). unfold stq in HL2. cbn [inp pend app length] in HL2. lia. }
-    exists st. split; [|split; [discriminate|intros _; exists te; split; assumption]].
+    exists (VStrs (s :: ss)), st. split; [|split; [reflexivity|split; [discriminate|intros _; exists te; split; assumption]]].
     cbn [parse_field]. unfold txt_from_text, get_remaining, rem_fuel. rewrite grl_unfold. rewrite HX. cbn [bind].
     unfold is_eol_or_eof at 1. cbn [ttype]. change (tQUOTED =? tEOL) with false. change (tQUOTED =? tEOF) with false.
     cbn [orb]. rewrite E2. cbn [bind rev app fst snd].
@@ -254,10 +291,64 @@ Proof.
     split; [apply get0_word_q; auto using units_safe|]. split; [reflexivity|]. split.
     { unfold tok_plain, is_identifier. cbn [ttype tvalue]. rewrite safe_word_not_hash by exact Hs. repeat split; reflexivity. }
     split; [apply stq_len_word|].
-    intros stX HX _. exists (stq false R). split; [|split; [intros _; exists false; reflexivity|discriminate]].
-    cbn [parse_field]. unfold get_identifier, get_unescaped. rewrite HX. cbn [bind fst snd]. unfold unescape. cbn [tesc].
-    rewrite has_bs_safe by exact Hs. cbn [negb bind fst snd]. unfold as_identifier, is_identifier. cbn [ttype tvalue].
-    change (tIDENT =? tIDENT) with true. cbn [negb bind fst snd]. rewrite Hat. reflexivity.
+    intros stX HX _. exists (VBytes ftext), (stq false R).
+    split; [|split; [|split; [intros _; exists false; reflexivity|discriminate]]].
+    + cbn [parse_field]. unfold get_identifier, get_unescaped. rewrite HX. cbn [bind fst snd]. unfold unescape. cbn [tesc].
+      rewrite has_bs_safe by exact Hs. cbn [negb bind fst snd]. unfold as_identifier, is_identifier. cbn [ttype tvalue].
+      change (tIDENT =? tIDENT) with true. reflexivity.
+    + cbn [ctor_field]. rewrite Hat. reflexivity.
+  - (* FHexTok *)
+    destruct Hv as (Hb & Hl). inversion Hp; subst ftext. inversion He; subst v'. specialize (HR1 eq_refl).
+    set (w := if is_nil b then [45] else hexlify b).
+    assert (Hw : forallb safe w = true /\ w <> [] /\ all_ascii w = true).
+    { unfold w. destruct b as [|x b']; [repeat split; discriminate|]. cbn [is_nil].
+      destruct (hexlify_safe (x :: b') Hb) as [S A]. repeat split; try assumption. discriminate. }
+    destruct Hw as (Hs & Hne & Ha).
+    exists (mkTok tIDENT w (has_bs w) None), (stq false R).
+    split; [apply get0_word_q; auto using units_safe|]. split; [reflexivity|]. split.
+    { unfold tok_plain, is_identifier. cbn [ttype tvalue]. rewrite safe_word_not_hash by exact Hs. repeat split; reflexivity. }
+    split; [apply stq_len_word|].
+    intros stX HX _. exists (VBytes b), (stq false R).
+    split; [|split; [|split; [intros _; exists false; reflexivity|discriminate]]].
+    + cbn [parse_field]. unfold get_string, get_unescaped. rewrite HX. cbn [bind fst snd]. unfold unescape. cbn [tesc].
+      rewrite has_bs_safe by exact Hs. cbn [negb bind fst snd]. unfold as_string, is_identifier, is_quoted. cbn [ttype tvalue].
+      change (tIDENT =? tIDENT) with true. change (0 =? 0) with true. cbn [orb negb andb bind fst snd].
+      unfold w. destruct b as [|x b']; [reflexivity|]. cbn [is_nil].
+      replace (zlist_eqb (hexlify (x :: b')) [45]) with false
+        by (unfold hexlify; cbn [flat_map app zlist_eqb]; rewrite andb_false_r; reflexivity).
+      rewrite utf8_ascii by (apply (hexlify_safe (x :: b') Hb)). cbn [bind].
+      rewrite unhexlify_hexlify by exact Hb. reflexivity.
+    + cbn [ctor_field]. replace (zlen b >? 255) with false by lia. reflexivity.
+  - (* FAlg *)
+    inversion Hp; subst ftext. inversion He; subst v'. specialize (HR1 eq_refl).
+    pose proof (dec_safe z ltac:(lia)) as Hs.
+    exists (mkTok tIDENT (dec z) (has_bs (dec z)) None), (stq false R).
+    split; [apply get0_word_q; auto using units_safe, dec_nonempty|].
+    split; [reflexivity|]. split.
+    { unfold tok_plain, is_identifier. cbn [ttype tvalue]. rewrite safe_word_not_hash by exact Hs. repeat split; reflexivity. }
+    split; [apply stq_len_word|].
+    intros stX HX _. exists (VBytes (dec z)), (stq false R).
+    split; [|split; [|split; [intros _; exists false; reflexivity|discriminate]]].
+    + cbn [parse_field]. unfold get_string, get_unescaped. rewrite HX. cbn [bind fst snd]. unfold unescape. cbn [tesc].
+      rewrite has_bs_safe by exact Hs. cbn [negb bind fst snd]. unfold as_string, is_identifier, is_quoted. cbn [ttype tvalue].
+      change (tIDENT =? tIDENT) with true. change (0 =? 0) with true. reflexivity.
+    + cbn [ctor_field]. rewrite (alg_dec z Hv). reflexivity.
+  - (* FTag *)
+    destruct Hv as (Hne & Hl & Hal). inversion Hp; subst ftext. inversion He; subst v'. specialize (HR1 eq_refl).
+    destruct (alnum_facts b Hal) as (He1 & Hs & Ha).
+    rewrite He1.
+    exists (mkTok tIDENT b (has_bs b) None), (stq false R).
+    split; [apply get0_word_q; auto using units_safe|]. split; [reflexivity|]. split.
+    { unfold tok_plain, is_identifier. cbn [ttype tvalue]. rewrite safe_word_not_hash by exact Hs. repeat split; reflexivity. }
+    split; [apply stq_len_word|].
+    intros stX HX _. exists (VBytes b), (stq false R).
+    split; [|split; [|split; [intros _; exists false; reflexivity|discriminate]]].
+    + cbn [parse_field]. unfold get_string, get_unescaped. rewrite HX. cbn [bind fst snd]. unfold unescape. cbn [tesc].
+      rewrite has_bs_safe by exact Hs. cbn [negb bind fst snd]. unfold as_string, is_identifier, is_quoted. cbn [ttype tvalue].
+      change (tIDENT =? tIDENT) with true. change (0 =? 0) with true. cbn [orb negb andb bind fst snd].
+      rewrite utf8_ascii by exact Ha. reflexivity.
+    + cbn [ctor_field]. replace (zlen b >? 255) with false by lia. rewrite Hal.
+      destruct b; [congruence|reflexivity].
 Qed.
 
 (* ---------- the whole field list ---------- *)
@@ -282,7 +373,7 @@ Lemma fields_ok sty c rest : style_ok sty -> line_end rest ->
   exists t1 s1, get0 (stq q (bl ++ text ++ rest)) = Ok (t1, s1) /\ ungot s1 = None /\ tok_plain t1 /\
     (length (inp s1) <= length (inp (stq q (bl ++ text ++ rest))))%nat /\
     forall stX, get0 stX = Ok (t1, s1) -> (length (inp s1) <= length (inp stX))%nat ->
-      exists st_end, parse_fields c fs stX = Ok (vs', st_end) /\ ends_ok st_end.
+      exists raws st_end, parse_fields c fs stX = Ok (raws, st_end) /\ ctor_fields fs raws = Ok vs' /\ ends_ok st_end.
 Proof.
   intros Hsty Hrest. induction fs as [|f fs IH]; intros vs text vs' q bl Hwf Hvs Hp He Hbl; [contradiction|].
   inversion Hvs as [|? v ? vs0 Hv Hvs0]; subst.
@@ -294,8 +385,9 @@ Proof.
                 (fun _ => line_end_word_end rest Hrest) (fun _ => Hrest))
       as (t1 & s1 & G1 & G2 & G3 & G4 & G5).
     exists t1, s1. split; [exact G1|]. split; [exact G2|]. split; [exact G3|]. split; [exact G4|]. intros stX HX HL.
-    destruct (G5 stX HX HL) as (se & P1 & P2 & P3). exists se. cbn [parse_fields]. rewrite P1. cbn [bind fst snd].
-    split; [reflexivity|]. unfold ends_ok.
+    destruct (G5 stX HX HL) as (raw & se & P1 & Pc & P2 & P3). exists [raw], se.
+    cbn [parse_fields ctor_fields]. rewrite P1. cbn [bind fst snd]. rewrite Pc. cbn [bind].
+    split; [reflexivity|]. split; [reflexivity|]. unfold ends_ok.
     destruct (is_rest f) eqn:Er.
     + destruct (P3 eq_refl) as (te & Hu & Hte). destruct (get_eol_ungot se te Hu Hte) as (st' & E). eauto.
     + destruct (P2 eq_refl) as (q' & ->).
@@ -316,14 +408,17 @@ Proof.
                 (fun _ => word_end_blank _) (fun H => ltac:(congruence)))
       as (t1 & s1 & G1 & G2 & G3 & G4 & G5).
     exists t1, s1. split; [exact G1|]. split; [exact G2|]. split; [exact G3|]. split; [exact G4|]. intros stX HX HL.
-    destruct (G5 stX HX HL) as (se & P1 & P2 & _). destruct (P2 Hnr) as (q' & ->).
+    destruct (G5 stX HX HL) as (raw & se & P1 & Pc & P2 & _). destruct (P2 Hnr) as (q' & ->).
     destruct (IH (v2 :: vs0) b vr q' [32] Hwf Hvs0 Pb Er eq_refl) as (t2 & s2 & I1 & I2 & I3 & I4 & I5).
     cbn [app] in I1, I4.
-    destruct (I5 (stq q' (32 :: b ++ rest)) I1 I4) as (se2 & Q1 & Q2).
-    exists se2. split; [|exact Q2].
-    change (parse_fields c (f :: f2 :: fs) stX)
-      with (do vs <- parse_field c f stX; do rs <- parse_fields c (f2 :: fs) (snd vs); Ok (fst vs :: fst rs, snd rs)).
-    rewrite P1. cbn [bind fst snd]. rewrite Q1. reflexivity.
+    destruct (I5 (stq q' (32 :: b ++ rest)) I1 I4) as (raws2 & se2 & Q1 & Qc & Q2).
+    exists (raw :: raws2), se2. split; [|split; [|exact Q2]].
+    + change (parse_fields c (f :: f2 :: fs) stX)
+        with (do vs <- parse_field c f stX; do rs <- parse_fields c (f2 :: fs) (snd vs); Ok (fst vs :: fst rs, snd rs)).
+      rewrite P1. cbn [bind fst snd]. rewrite Q1. reflexivity.
+    + change (ctor_fields (f :: f2 :: fs) (raw :: raws2))
+        with (do a <- ctor_field f raw; do b <- ctor_fields (f2 :: fs) raws2; Ok (a :: b)).
+      rewrite Pc. cbn [bind]. rewrite Qc. reflexivity.
 Qed.
 
 (* ---------- dns.rdata.from_text on the printed record ---------- *)
@@ -339,7 +434,7 @@ Proof.
   change (mkSt (text ++ rest) 0%nat false None) with (stq false (text ++ rest)).
   rewrite G1. cbn [bind].
   destruct (get0_unget _ _ _ G1 G2 W1 W2) as (stu & U1 & U2). rewrite U1. cbn [bind]. rewrite W3.
-  destruct (G5 stu U2) as (se & P1 & (te & st' & P2)).
+  destruct (G5 stu U2) as (raws & se & P1 & Pc & (te & st' & P2)).
   { unfold unget in U1. rewrite G2 in U1. inversion U1. cbn [inp]. lia. }
-  rewrite P1. cbn [bind fst snd]. rewrite P2. reflexivity.
+  unfold class_from_text. rewrite P1. cbn [bind fst snd]. rewrite Pc. cbn [bind fst snd]. rewrite P2. reflexivity.
 Qed.
